@@ -158,7 +158,7 @@ def modular_task(arg):
     what it reads (induction along the acyclic read graph)."""
     year, which = arg
     os.environ['HV_PROCS'] = '1'
-    so = {'S': 2, 'ft': 'uf', 'cents': True, 'nonneg': True}
+    so = {'S': 2, 'ft': os.environ.get('HV_C16_FT', 'uf'), 'cents': True, 'nonneg': True}
     rm = retmodel.ReturnModel(year, 1, ['1040'], sopts=so)
     pert = {'wages': 'w-2:0.box_1', 'withholding': 'w-2:0.box_2', 'deduction': '1040_sa.state_local_real_estate_taxes'}[which]
     res = {'year': year, 'which': which, 'obl': [], 'classes': {}, 'samples': [], 'final': None}
@@ -189,12 +189,26 @@ def modular_task(arg):
     cls = {}
     delta = tm.var('delta#k', 'I')          # cents
     dreal = tm.div(tm.to_real(delta), tm.R(100))
-    for n in order:
+
+    def definition(m):
+        """relation 'm has a value and it is what its definition yields'"""
+        alts = []
+        lv = rm.lvar[m]
+        for p in rm.summ[m]:
+            if p.kind != 'value':
+                continue
+            parts = list(p.conds) + list(p.assumes)
+            if lv[0] in ('num', 'enum') and p.value[0] == lv[0]:
+                parts.append(tm.eq(lv[1], p.value[1]))
+            elif lv[0] == 'str' and p.value[0] == 'str':
+                parts.append(tm.and_(tm.eq(lv[1], p.value[1]), tm.eq(lv[2], p.value[2])))
+            alts.append(tm.and_(*parts))
+        return tm.or_(*alts) if alts else tm.TRUE
+    def classify(n, deep):
         paths = [p for p in rm.summ[n] if p.kind not in ('cut',)]
         kinds = sorted(set(p.kind for p in paths))
         if 'value' not in kinds:
-            cls[n] = 'any'
-            continue
+            return 'any', 0.0
         vsort = None
         for p in paths:
             if p.kind == 'value' and p.value[0] in ('num', 'enum'):
@@ -209,6 +223,22 @@ def modular_task(arg):
                 parts.append(tm.eq(v1, p.value[1]))
             alts.append(tm.and_(*parts))
         R1 = tm.or_(*alts)
+        # inline (two levels) the definitions of lines read whose response could not be classified:
+        # their correlation with other reads is what the class abstraction loses
+        inlined = set()
+        frontier = [R1]
+        for depth in range(14 if deep else 2):
+            nv = {}
+            for t_ in frontier:
+                tm.free_vars(t_, nv)
+            frontier = []
+            for v in sorted(nv):
+                kind_, owner = owner_of(v)
+                if kind_ == 'line' and owner != n and owner in rm.summ and (deep or cls.get(owner, 'any') == 'any') and (deep or cls.get(owner) != 'same') and owner not in inlined and len(rm.summ[owner]) <= 40 and len(inlined) < 90:
+                    inlined.add(owner)
+                    d_ = definition(owner)
+                    frontier.append(d_)
+                    R1 = tm.and_(R1, d_)
         names = tm.free_vars(R1)
         names.pop('o1#kind', None)
         names.pop('o1#val', None)
@@ -217,7 +247,9 @@ def modular_task(arg):
         if vsort:
             mapping['o1#val'] = v2
         R2 = tm.subst(R1, mapping)
-        cons = [R1, R2, tm.eq(k1, tm.I(kinds.index('value'))), tm.eq(k2, tm.I(kinds.index('value'))), tm.le(tm.I(1), delta)]
+        cons = [R1, R2, tm.eq(k1, tm.I(kinds.index('value'))), tm.eq(k2, tm.I(kinds.index('value'))), tm.le(tm.I(1 if which == 'withholding' else 100), delta)]
+        if which in ('wages', 'withholding'):
+            cons.append(tm.eq(tm.var('i:1040.number_w-2', 'I'), tm.I(1)))
         # how the things this line reads respond
         for v, srt in names.items():
             kind, owner = owner_of(v)
@@ -242,7 +274,7 @@ def modular_task(arg):
                     fld = rm.cat.field(owner)
                     cons.append(tm.eq(tm.div(tm.to_real(b2), tm.R(10 ** fld._places)), tm.add(tm.div(tm.to_real(a), tm.R(10 ** fld._places)), dreal)))
         # monotone rounding and monotone tax function lemmas
-        for p in paths:
+        for p in paths + [q for m_ in inlined for q in rm.summ[m_]]:
             for asm in p.assumes:
                 if asm.op == 'and' and len(asm.args) == 2 and asm.args[0].op == 'le' and asm.args[0].args[0].op == 'sub':
                     r_, t_ = asm.args[0].args[0].args
@@ -259,7 +291,7 @@ def modular_task(arg):
             cons.append(tm.implies(tm.and_(same_st, tm.le(x_, x2_)), tm.le(ap, ap2)))
             cons.append(tm.implies(tm.and_(same_st, tm.le(x2_, x_)), tm.le(ap2, ap)))
         base = z3.Solver()
-        base.set('timeout', 20000)
+        base.set('timeout', 60000 if deep else 20000)
         for c_ in cons:
             base.add(tm.to_z3(c_))
         found = 'any'
@@ -279,12 +311,27 @@ def modular_task(arg):
             base.push()
             base.add(tm.to_z3(neg))
             r = str(base.check())
+            if r == 'sat' and os.environ.get('HV_C16_DEBUG') == n and cand == os.environ.get('HV_C16_DEBUG_CLS', 'up'):
+                m_ = base.model()
+                for v_ in sorted(names):
+                    if v_.startswith('v:') or v_.startswith('rnd') or 'FT' in v_:
+                        try:
+                            print('   ', v_, tm.model_value(m_, tm.var(v_, names[v_])), '->', tm.model_value(m_, tm.var(v_ + '@2', names[v_])))
+                        except Exception as e_:
+                            pass
+                print('   inlined', sorted(inlined))
             base.pop()
             if r == 'unsat':
                 found = cand
                 break
+        return found, time.time() - t0
+    for n in order:
+        found, dt = classify(n, False)
+        if found == 'any':
+            found, dt2 = classify(n, True)      # cone of influence inlined (bounded)
+            dt += dt2
         cls[n] = found
-        res['obl'].append(('ty%d/%s/class/%s=%s' % (year, which, n, found), 'unsat' if found != 'any' else 'unknown', time.time() - t0))
+        res['obl'].append(('ty%d/%s/class/%s=%s' % (year, which, n, found), 'unsat' if found != 'any' else 'unknown', dt))
     res['classes'] = {n: c_ for n, c_ in cls.items() if c_ != 'same'}
     if which == 'wages':
         ok = cls.get('1040.24') in ('same', 'up')
